@@ -55,6 +55,47 @@ DESCR = {
     'C19b': ('write_int merged into one write_uint (range check on n instead of n-1 bits)', 'magnitude in [2^(n-1), 2^n)'),
     'C20a': ('NCEP repair no longer descends into replications that already have members', 'replication with explicit members over a sequence containing a replication-only sequence'),
     'C20b': ('table-group cache invalidated only when the number of extra entries grew', 'a later definition message that only redefines earlier ids'),
+    # ---- second round (seeders were told what the first round had done and asked for other mechanisms/sites)
+    'C01c': ('switch_subset_context no longer resets scale_offset', 'uncompressed, >= 2 subsets, 202YYY still in force at the end of the template, numeric element before it'),
+    'C01d': ('MarkerDescriptor memoised per (element id, marker id) across table versions', 'marker on element E under version V1, then under V2 where E\'s Table B entry differs, same process'),
+    'C02c': ('edition <= 3 even-octet padding decided from the floor count of whole octets', 'edition 2/3 and a data section whose bit length is not a multiple of 8'),
+    'C02d': ('all-missing compressed numeric column uses the Table B width for the all-ones minimum', 'compressed, numeric element under 201/207, missing in every subset'),
+    'C03c': ('same all-missing width slip as C02d', 'compressed, 201/207 in force, element missing in every subset'),
+    'C03d': ('compiled statements apply recorded state properties only if truthy', 'compiled mode on one side; two markers, operator on the earlier one cancelled before the later'),
+    'C04c': ('too-short non-zero declared section length silently recomputed', 'ignore_declared_length=False, a section declared shorter than its content, total 0 or exact'),
+    'C04d': ('reader.skip() by seeking + `if nbits_unread:` lets a negative remainder rewind', 'data section declared short with consistent framing (7777 after the declared end, total agrees, bytes follow)'),
+    'C05c': ('compressed character increments written at the longest string\'s width', 'compressed, >= 2 subsets, differing strings all shorter than the field'),
+    'C05d': ('compressed bitmap_links_all_subsets no longer aliases one dict', 'compressed, >= 2 subsets, bitmap block, looking at links of a subset other than the first'),
+    'C06c': ('MarkerDescriptor memo keyed by flat index survives the subset switch', 'uncompressed, >= 2 subsets, marker operator, delayed replication before the bitmap with differing counts'),
+    'C06d': ('wire() reuses the previous subset\'s node tree when descriptors compare equal', 'uncompressed, consecutive subsets with identical layout whose bitmaps select different elements'),
+    'C07c': ('225255 reference = element reference - 2^width', '225255 on an owner with non-zero Table B reference value'),
+    'C07d': ('MarkerDescriptor memo keyed without the table group', 'two messages of different table versions with a marker on an element defined differently'),
+    'C08c': ('compiler drops the reset for a bitmap given as explicit 031031 list', 'two bitmap definitions in one subset, the second an explicit list'),
+    'C08d': ('marker statements record operator state only when an operator is in force', 'two markers in one subset, first under 201/202/207/208, second after cancellation'),
+    'C09c': ('nested-text converter strips dots but not the blanks after them', 'bitmap pointing at a replication factor, conversion through nested text'),
+    'C09d': ('wiring treats 204000 as "cancel all" instead of pop', 'nested 204 with a nested rendering'),
+    'C10c': ('Encoder.define_bitmap uses subset 0\'s bits', 'subset of an uncompressed message keeping >= 2 subsets with different bitmaps and markers'),
+    'C10d': ('write_int writes two\'s complement', 'template with 203YYY and a negative new reference value'),
+    'C11c': ('info-only serialized_bytes from declared length only without filter', 'info_only=True together with filter_expr'),
+    'C11d': ('repeated ${..} bound to the most recently created variable', 'filter reusing an earlier expression after a different one'),
+    'C12c': ('except Exception narrowed to a tuple without AttributeError', 'undefined element substituted at a delayed-replication factor slot / misaligned descriptor list'),
+    'C12d': ('ignore_value_expectation mutates shared section definitions', 'reused Decoder after one lenient decode, then a stream with a damaged stop signature'),
+    'C13c': ('table-group cache eviction loop shadows the requested key', 'cache at its limit (50 groups or limit forced small) and an uncached group requested'),
+    'C13d': ('nbits_of_associated became a class attribute', 'a compressed 204 message whose processing ends while 204 is in force (failure or open 204), then any compressed message'),
+    'C14c': ('compiled cache key built from top-level members only', 'one compiled coder, two lists differing only inside a top-level replication'),
+    'C14d': ('original_descriptor_ids expands sequences inside replications', 'a sequence descriptor owned by a top-level replication'),
+    'C15c': ('parsed-path memo filled before parsing succeeds', 'the same invalid string presented twice to one parser'),
+    'C15d': ('slice element pre-check strips every leading minus', 'slice element of two or more minus signs followed by digits (length >= 6)'),
+    'C16c': ('zero-members early return moved into the separator dispatcher', 'attribute step onto the factor of a zero-count delayed replication'),
+    'C16d': ('slice-element reset moved to __init__', 'a malformed path rejected mid-slice, then a valid query on the same querent'),
+    'C17c': ('info_configuration drops end_of_message', 'info-only decode of a message whose damage reaches section 4\'s length octets or the tail'),
+    'C17d': ('table-definition step also runs in info-only scans', 'info-only stream scan over a data_category 11 message'),
+    'C18c': ('all_values(flat=True) iterates sorted subset indices', 'embedded query with a negative-step subset slice on >= 2 subsets'),
+    'C18d': ('default pragma dict shared by all runners', 'several runners built before being run, or a default runner after one that set a level'),
+    'C19c': ('merged exception handlers use e.msg for ValueError', 'bool / signed-int read exactly at the end of the stream'),
+    'C19d': ('missing-value check bounded by nbits < 64', '64-bit field of all ones through read_uint_or_none'),
+    'C20c': ('first value after Table A taken at a fixed offset of 3', 'definition message with a Table A count other than 1'),
+    'C20d': ('extra entries appended only when there are no local tables', 'data message whose header selects bundled local tables (e.g. centre 98, local version 1)'),
 }
 
 
@@ -66,11 +107,11 @@ def load(p):
 
 def main(argv):
     mdir = argv[0]
-    first = argv[1] if len(argv) > 1 else None
+    firsts = argv[1:]
     rows = []
     for sid in sorted(os.listdir(os.path.join(VERIF, 'seeded'))):
         d = os.path.join(VERIF, 'seeded', sid)
-        if not os.path.isdir(d):
+        if not os.path.isdir(d) or sid.startswith('.'):
             continue
         res = None
         p = os.path.join(mdir, sid + '.json')
@@ -80,7 +121,7 @@ def main(argv):
             except Exception:
                 res = None
         f = None
-        if first:
+        for first in firsts:
             p1 = os.path.join(first, sid + '.json')
             if os.path.exists(p1):
                 try:
